@@ -118,7 +118,7 @@ pub fn free_port() -> u16 {
 /// waits until a socket listens on the port (reads /proc/net/tcp; connecting would consume an accept)
 pub fn wait_listening(port: u16) -> bool {
     let needle = format!(":{port:04X} ");
-    for _ in 0..400 {
+    for _ in 0..1000 {
         if let Ok(t) = std::fs::read_to_string("/proc/net/tcp") {
             for line in t.lines().skip(1) {
                 let f: Vec<&str> = line.split_whitespace().collect();
@@ -133,6 +133,11 @@ pub fn wait_listening(port: u16) -> bool {
 impl Srv {
     /// the real listener on its own thread and current-thread runtime
     pub fn start(o: &SrvOpts) -> Srv {
+        // a port probed as free can be taken by a parallel case before the listener binds it: try again
+        for _ in 0..4 { if let Some(s) = Self::try_start(o) { return s; } }
+        panic!("the listener did not come up in four attempts (listen() fails or returns at once)");
+    }
+    fn try_start(o: &SrvOpts) -> Option<Srv> {
         let port = free_port();
         let stop = CancellationToken::new();
         let seen: Seen = Arc::new(Mutex::new(vec![]));
@@ -152,8 +157,8 @@ impl Srv {
             // the process would exit here: whatever is still running is cut
             rt.shutdown_timeout(Duration::from_millis(0));
         });
-        assert!(wait_listening(port), "listener did not come up");
-        Srv { port, stop, seen, gate, returned, tid }
+        if !wait_listening(port) { stop.cancel(); return None; }
+        Some(Srv { port, stop, seen, gate, returned, tid })
     }
     /// CPU time (user + system) consumed so far by the server's thread, in milliseconds
     pub fn cpu_ms(&self) -> u64 {
@@ -169,13 +174,18 @@ impl Srv {
 
 /// the application entry point with a configuration value (never returns: no stop signal but ctrl-c)
 pub fn start_app(cfg: passage::config::Config) -> u16 {
-    let port: u16 = cfg.address.rsplit(':').next().unwrap().parse().unwrap();
-    std::thread::spawn(move || {
-        let rt = tokio::runtime::Builder::new_current_thread().enable_all().build().unwrap();
-        let _ = rt.block_on(passage::start(cfg)).map_err(|e| eprintln!("start failed: {e}"));
-    });
-    assert!(wait_listening(port), "application did not come up");
-    port
+    let mut cfg = cfg;
+    for _ in 0..4 {
+        let port: u16 = cfg.address.rsplit(':').next().unwrap().parse().unwrap();
+        let c2 = cfg.clone();
+        std::thread::spawn(move || {
+            let rt = tokio::runtime::Builder::new_current_thread().enable_all().build().unwrap();
+            let _ = rt.block_on(passage::start(c2)).map_err(|e| eprintln!("start failed: {e}"));
+        });
+        if wait_listening(port) { return port; }
+        cfg.address = format!("127.0.0.1:{}", free_port());
+    }
+    panic!("the application did not come up in four attempts");
 }
 
 // ---------------------------------------------------------------- client
@@ -358,7 +368,8 @@ fn app_config(port: u16, max_len: u64, expiry: u64, secret: Option<&str>, timeou
 fn app_config_full(port: u16, max_len: u64, expiry: u64, secret: Option<&str>, timeout_s: u64, proxy: Option<(bool, bool)>, limit: Option<usize>) -> passage::config::Config {
     use passage::config as c;
     c::Config {
-        rate_limiter: limit.map(|limit| c::RateLimiter { duration: 3600, limit }),
+        // 20 s: longer than any history here, short enough that a window built in the wrong unit rolls over between connections
+        rate_limiter: limit.map(|limit| c::RateLimiter { duration: 20, limit }),
         address: format!("127.0.0.1:{port}"), timeout: timeout_s, max_packet_length: max_len, auth_cookie_expiry: expiry,
         auth_secret: secret.map(|s| s.to_string()),
         proxy_protocol: proxy.map(|(allow_v1, allow_v2)| c::ProxyProtocol { allow_v1, allow_v2 }),
@@ -617,6 +628,7 @@ fn c15_case(req: &str) -> Case {
             conns.push(format!("{peer}/{}", match &class { HClass::Source(ip) => format!("s{}", id_of(*ip)), HClass::NoAddr => "n".into(), HClass::Invalid => "i".into() }));
             let want = match eff { None => "C".to_string(), Some(ip) => if reference.as_mut().is_none_or(|r| r.enqueue(ip)) { format!("S{}", id_of(ip)) } else { "R".to_string() } };
             let seen_before = seen_log.lock().unwrap().len();
+            if via_app { tokio::time::sleep(Duration::from_millis(60)).await; }
             let mut c = Cli::connect(port, Some(peer_ip)).await.expect("connect");
             c.phase = ClientPhase::Status;
             c.raw(&first).await;
